@@ -479,6 +479,11 @@ func (b *Builder) goDefer(call *ast.CallExpr, kind NodeKind, pos token.Pos) {
 			m := b.newNode(NNop, call.End())
 			m.Note = "goend"
 			b.emit(m)
+		} else if b.isResultDefer(lit, call, pos) {
+			// a deferred literal without parameters, registered unconditionally at the top level of
+			// the function, that assigns a named result: it runs at every return that follows
+			// (returnStmt splices it in after the results were stored into the named results)
+			b.inst.resultDefers = append(b.inst.resultDefers, lit)
 		} else {
 			// deferred literal: not executed here; free variables it assigns become volatile
 			b.markCaptured(lit)
@@ -600,6 +605,89 @@ func (b *Builder) namedResults() []*Term {
 		}
 	}
 	return out
+}
+
+// funcTypeBody: the type and body of the function or literal being built.
+func (b *Builder) funcTypeBody() (*ast.FuncType, *ast.BlockStmt) {
+	switch {
+	case b.inst.Lit != nil:
+		return b.inst.Lit.Type, b.inst.Lit.Body
+	case b.inst.Fn != nil:
+		if fs := b.P.Funcs[b.inst.Fn.Origin()]; fs != nil {
+			return fs.Decl.Type, fs.Decl.Body
+		}
+	}
+	return nil, nil
+}
+
+// namedResultVars: the variables of the named results (nil entry for "_"; nil if unnamed).
+func (b *Builder) namedResultVars() []*Var {
+	ft, _ := b.funcTypeBody()
+	if ft == nil || ft.Results == nil {
+		return nil
+	}
+	var out []*Var
+	for _, f := range ft.Results.List {
+		if len(f.Names) == 0 {
+			return nil
+		}
+		for _, nm := range f.Names {
+			if o := b.info.Defs[nm]; o != nil && nm.Name != "_" {
+				out = append(out, b.useVar(o))
+			} else {
+				out = append(out, nil)
+			}
+		}
+	}
+	return out
+}
+
+// isResultDefer: `defer func() { ... }()` written as a top-level statement of the current
+// function's body (so it is registered on every path that reaches a later return) whose body
+// assigns a named result of that function.
+func (b *Builder) isResultDefer(lit *ast.FuncLit, call *ast.CallExpr, pos token.Pos) bool {
+	if len(call.Args) > 0 || (lit.Type.Params != nil && len(lit.Type.Params.List) > 0) {
+		return false
+	}
+	ft, body := b.funcTypeBody()
+	if ft == nil || body == nil || ft.Results == nil {
+		return false
+	}
+	top := false
+	for _, st := range body.List {
+		if ds, ok := st.(*ast.DeferStmt); ok && ds.Pos() == pos {
+			top = true
+		}
+	}
+	if !top {
+		return false
+	}
+	results := map[types.Object]bool{}
+	for _, f := range ft.Results.List {
+		for _, nm := range f.Names {
+			if o := b.info.Defs[nm]; o != nil && nm.Name != "_" {
+				results[o] = true
+			}
+		}
+	}
+	if len(results) == 0 {
+		return false
+	}
+	found := false
+	ast.Inspect(lit.Body, func(n ast.Node) bool {
+		switch x := n.(type) {
+		case *ast.FuncLit:
+			return false
+		case *ast.AssignStmt:
+			for _, l := range x.Lhs {
+				if id, ok := ast.Unparen(l).(*ast.Ident); ok && results[b.info.Uses[id]] {
+					found = true
+				}
+			}
+		}
+		return true
+	})
+	return found
 }
 
 func (b *Builder) zeroOf(t types.Type) *Term {
@@ -752,6 +840,29 @@ func (b *Builder) returnStmt(s *ast.ReturnStmt) {
 	} else {
 		for _, e := range s.Results {
 			ts = append(ts, b.expr(e))
+		}
+	}
+	if len(b.inst.resultDefers) > 0 {
+		if named := b.namedResultVars(); named != nil && len(named) == len(ts) {
+			if len(s.Results) > 0 {
+				n := b.newNode(NAssign, s.Pos())
+				n.Note = "results"
+				for i, v := range named {
+					if v != nil && ts[i] != nil {
+						n.Dst = append(n.Dst, v)
+						n.Src = append(n.Src, ts[i])
+					}
+				}
+				b.emit(n)
+			}
+			for i := len(b.inst.resultDefers) - 1; i >= 0; i-- {
+				b.inlineLit(b.inst.resultDefers[i], nil, s.Pos(), 0)
+			}
+			for i, v := range named {
+				if v != nil {
+					ts[i] = varTerm(v)
+				}
+			}
 		}
 	}
 	if b.inst.Parent == nil {
